@@ -21,10 +21,20 @@ STD = ["From Coq Require Import Ascii String.", "From Coq Require Import List NA
        "From RX.Model Require Import Base CharClass Stream Tokenizer Doc Builder Parse Api."]
 
 TABLE = {
+ "C01": dict(
+   intro="C01 -- parsing is total.\n   Termination: the model's OutOfFuel value (a loop of the Rust source that does not finish, or entity\n   recursion deeper than the level fuel) is unreachable on valid UTF-8 input: every loop iteration consumes\n   input and the loop detector bounds the entity nesting.  (On byte strings that are not valid UTF-8 the\n   model can loop: termination_needs_valid_utf8; a Rust &str is always valid UTF-8.)\n   No panic: the tokenizer reaches none of its panic sites (slicing, indexing, advance, unwrap) on valid\n   UTF-8, with any callback that does not panic itself; the real callback preserves the builder invariant\n   Core and can only reach the debug_assert of ShortRange::from in resolve_namespaces (tree_order longer\n   than u32::MAX), see DESIGN.md D17.",
+   imports=["From RX.Proofs Require Import TermStream TermUtf8 TermParse NoPanicUtf8 NoPanicStream NoPanicTokenizer NoPanicBuilder NoPanicBuilderCtx NoPanicText NoPanicParse."],
+   groups=[("TermParse.v", ["tokenizer_terminates", "token_terminates", "token_preserves_depth0", "parse_document_terminates"]),
+           ("TermUtf8.v", ["termination_needs_valid_utf8"], "Local Notation safe := TermStream.safe."),
+           ("NoPanicTokenizer.v", ["tokenizer_no_panic"], "Local Notation token := Tokenizer.token."),
+           ("NoPanicParse.v", ["token_panic_only_debug_assert", "token_preserves_core", "parse_document_token_panic_only_debug_assert"],
+            "Local Notation TokOk := NoPanicTokenizer.TokOk."),
+           ("NoPanicParse.v", ["token_no_panic_partial", "token_preserves_CtxInv"])]),
  "C02": dict(
    intro="C02 -- a parsed document is a well-formed ordered tree: the arena of every successfully parsed\n   document is the pre-order encoding (Spec/Tree.v) of a tree whose root is the Root node, with no other\n   Root below, children only under Root / Element nodes, and at least one element child of the root.\n   (encode makes 'ids dense and in pre-order, every node reached once, parent / prev-sibling /\n   last-child / next-subtree links mutually consistent' one equation.)",
-   imports=["From RX.Spec Require Import Tree.", "From RX.Proofs Require Import KeystoneEnc KeystoneBuilder KeystoneParse."],
-   groups=[("KeystoneParse.v", ["parse_links_tree"])]),
+   imports=["From RX.Spec Require Import Tree.", "From RX.Proofs Require Import KeystoneEnc KeystoneBuilder KeystoneParse KeystoneProto KeystoneWf KeystoneParseWf."],
+   groups=[("KeystoneParseWf.v", ["parse_wf_doc_tree", "parse_no_adjacent_text", "parse_single_root_element", "parse_no_text_under_root"]),
+           ("KeystoneParse.v", ["parse_links_tree"])]),
  "C08": dict(
    intro="C08 -- ill-formed documents are rejected.  (1) the three character classes are the Fifth Edition\n   productions for every scalar value (tables regenerated from the source on every run);\n   (2) local rejection theorems, 'accepted implies constraint': comment bodies, ']]>' in text, misplaced\n   declaration, '<' in attribute values, every consumed character is a Char, end tags match the open\n   element and cannot close an element opened outside the current entity, reserved prefixes and URIs,\n   entity references are declared (first declaration wins), and the document-level token shape: only\n   comments / PIs (and entity declarations) before the root, at most one root element, only\n   comments / PIs after it.",
    imports=["From RX.Spec Require Chars.", "From RX.Proofs Require Import CharTablesProofs RejectProofs."],
@@ -72,6 +82,21 @@ TABLE = {
                                  "text_pos_shift_spaces_valid", "text_pos_shift_lines_gen", "text_pos_shift_spaces_gen"]),
            ("ErrPosTokenizer.v", ["tokenizer_errors_positioned"], "Local Notation token := Tokenizer.token."),
            ("ErrPosParse.v", ["token_errors_positioned", "parse_errors_positioned", "parse_error_in_bounds"])]),
+ "C15": dict(
+   intro="C15 -- nodes_limit is a hard, monotone cap on tree size: a successful parse has at most L nodes;\n   if the parse with a larger limit succeeds with N nodes then every L >= N gives the identical document\n   and every L < N gives Err NodesLimitReached; if it fails, every smaller limit fails too.",
+   imports=["From RX.Proofs Require Import OptionsParam OptionsBuild OptionsMain OptionsDtd."],
+   groups=[("OptionsMain.v", ["limit_caps", "limit_above", "limit_below", "limit_error_persists"])]),
+ "C16": dict(
+   intro="C16 -- DTD processing is off by default and allow_dtd changes nothing else: the default options\n   are {allow_dtd = false; nodes_limit = u32::MAX} (read from the source by the translator); with\n   allow_dtd = false the result is Err DtdDetected or identical to the result with allow_dtd = true;\n   an input without the string '<!DOCTYPE' gives identical results.",
+   imports=["From RX.Proofs Require Import OptionsParam OptionsBuild OptionsMain OptionsDtd."],
+   groups=[("OptionsMain.v", ["default_options_are", "dtd_flag_relation"]), ("OptionsDtd.v", ["no_doctype_no_difference"])]),
+ "C18": dict(
+   intro="C18 -- borrowed strings are slices of the input; undecoded content is not copied.  In the model a\n   borrowed string is an offset pair; every such pair in a parsed document is a valid slice of the input\n   (start <= end <= len, both on char boundaries), the only 'static strings are those of the xml\n   namespace, and the fast paths keep text / CDATA / attribute values borrowed.",
+   imports=["From RX.Proofs Require Import BorrowLocal BorrowTokenizer BorrowParse TextMerge."],
+   groups=[("BorrowLocal.v", ["mk_slice_valid", "fast_path_text", "fast_path_attr", "fast_path_cdata"]),
+           ("BorrowTokenizer.v", ["tokenizer_tokens_ok", "tokenizer_content_tokens_ok"], "Local Notation token := Tokenizer.token."),
+           ("BorrowParse.v", ["token_preserves_borrows", "parse_borrows_ok", "static_only_xml"]),
+           ("TextMerge.v", ["single_fragment_storage"])]),
  "C17": dict(
    intro="C17 -- node identity, equality, ordering: a node is the key (document address, id).",
    imports=["From RX.Proofs Require Import OrderProofs."],
